@@ -580,6 +580,9 @@ def run(ctx, res):
 
     if thorough:
         jit_compare(ctx, res)
+    # representation- and history-robustness of the public functions (harness/apirobust.py)
+    from .. import apirobust_cases as _AC
+    _AC.c11(res, np.random.default_rng(ctx["seed"] + 4242), ctx)
 
 
 def replay(data):
